@@ -1,5 +1,8 @@
 import PsyVerif.Lemmas.HaloPlace
 import PsyVerif.Lemmas.HaloKnown
+import PsyVerif.Lemmas.HaloEdit2
+import PsyVerif.Lemmas.HaloColour
+import PsyVerif.Lemmas.HaloAsync
 /-! # C22 — distributed-memory LFRic code never reads a dirty halo
 
 Model: `PsyVerif/Model/Halo.lean`.  The static side mirrors PSyclone (with the fix
@@ -7,24 +10,33 @@ Model: `PsyVerif/Model/Halo.lean`.  The static side mirrors PSyclone (with the f
 side (`specNeed`, `specAfter`, `stepF`, `runF`) is the independent specification.
 Lemma files: `Lemmas/Halo.lean` (marks, aggregation of depths), `HaloStep.lean` (placement
 decisions, exchanges), `HaloRun.lean` (running lowered schedules), `HaloSem.lean`,
-`HaloSafe.lean` (the global induction `valid_run`), `HaloPlace.lean` (the placement is valid),
-`HaloKnown.lean` (`known`).
+`HaloSafe.lean` (valid placement `ValidFrom`, invariant `Inv`, the global induction `valid_run`),
+`HaloPlace.lean` (the initial placement is valid), `HaloKnown.lean` (`known`),
+`HaloEdit.lean`/`HaloEdit2.lean` (redundant computation), `HaloColour.lean`, `HaloAsync.lean`.
 
-PROVED here (all inputs, no bound on the number of kernels, H, extents):
+PROVED here (all inputs; no bound on the number of kernels, H, extents, initial states):
 * `C22_safe_partial` / `C22_safe_placed` — global safety of the generated schedule of every invoke
   (default bounds) / of `create_halo_exchanges` for arbitrary loop bounds: no dirty read,
-  recorded ≤ actual wherever observed, for every field, initial state, H, extents;
+  recorded ≤ actual wherever observed, no exchange left in flight;
+* `C22_valid_safe` + `C22_place_valid` + `C22_rc_preserves_valid` (`C22_rc_preserves_safe`) +
+  `C22_colour_preserves_safe`: valid placement is an invariant of the initial placement, of
+  redundant computation (`rcEdit` = new bound + `update_halo_exchanges`) and of colouring, and
+  implies safety — so any sequence of redundant-computation and colouring steps is safe;
+* `C22_async_preserves_run` / `C22_async_preserves_safe`: splitting an exchange into
+  start/finish leaves the run unchanged;
 * the step lemmas `C22_required_sound`, `C22_required_known_sound`, `C22_hex_establishes`,
   `C22_hex_covers_readers`, `C22_depth_merge_sound`, `C22_no_halo_access_sound`,
   `C22_marks_conservative`;
 * the two known defect classes are real on the model (`C22_safe_counterexample*`), hence the full
   statement `C22_safe_statement` is false and the theorems carry the side conditions
-  `LoopOK` / `KernOK` / `SemOK`.
+  `LoopOK` / `KernOK` / `SemOK` (= `POK`), which exclude exactly those classes and ill-formed inputs.
 
 COVERED ONLY by correspondence with the real code + exhaustive abstract execution of the real
-generated code under `stepF` (harness, H ≤ 5, extents ≤ 2): the schedule edits of the
-transformations (`rcEdit` = redundant computation + `update_halo_exchanges`, `colourEdit`,
-`asyncEdit`, `moveEdit`, OpenMP regions delaying the marks), vector fields, inter-grid kernels. -/
+generated code under `stepF` (harness, H ≤ 5, extents ≤ 2): `moveEdit` (validity is decided by
+the real dependence analysis), asynchronous exchanges whose start and finish have been moved
+apart, redundant computation AFTER an asynchronous split (PSyclone refuses it), OpenMP regions
+delaying the marks, vector fields, inter-grid kernels; and that the Lean model agrees with
+PSyclone (correspondence on every generated case). -/
 namespace C22
 
 /-! ## The property -/
@@ -249,6 +261,192 @@ example :
       simp [argOf] at ha
       subst ha
       exact ⟨by simp, by decide, by decide, by decide⟩
+
+/-- **Valid placement** (`ValidFrom … [] s`, for field `f`): every exchange of `f` is synchronous
+and first serves a reader PSyclone considers for an exchange; every reader of `f` that PSyclone
+considers for an exchange has an exchange of `f` as its previous write dependence, or its
+previous writer leaves enough (`Suff`) for an aggregated reader list containing it.
+The initial placement is valid, redundant computation keeps it valid, and valid schedules are
+safe — so any number of redundant-computation steps after the initial placement is safe. -/
+theorem C22_place_valid (cfg : Cfg) (H : Nat) (env : Nat → Nat) (cont : Bool) (f : Nat)
+    (loops : List (Kern × Bound))
+    (hok : ∀ k b, (k, b) ∈ loops → POK cfg H env cont f k b) :
+    ValidFrom cfg H env cont f [] (placeExchanges cfg loops) ∧
+    (∀ k b, Item.loop k b ∈ placeExchanges cfg loops → POK cfg H env cont f k b) :=
+  placeExchanges_valid cfg H env cont f loops hok
+
+/-- **Redundant computation preserves valid placement.**  `rcEdit` = set the loop bound of the
+`i`-th item to halo depth `d` / maximum depth (`Dynamo0p3RedundantComputationTrans.apply`, with
+its `validate`), then `update_halo_exchanges`: `create_halo_exchanges` for the loop (new
+exchanges in front of it, a replaced following exchange dropped) and removal of following
+exchanges of the fields it writes that are no longer required.  Side conditions: all loops
+satisfy `POK` (before), and the edited loop satisfies it with its new bound. -/
+theorem C22_rc_preserves_valid (cfg : Cfg) (H : Nat) (env : Nat → Nat) (cont : Bool) (f : Nat)
+    (s s' : Sched) (i : Nat) (depth : Option Nat)
+    (hrc : rcEdit cfg s i depth = some s')
+    (hall : ∀ k b, Item.loop k b ∈ s → POK cfg H env cont f k b)
+    (hnew : ∀ k b R, s.drop i = .loop k b :: R → POK cfg H env cont f k (rcBound b depth))
+    (hv : ValidFrom cfg H env cont f [] s) :
+    ValidFrom cfg H env cont f [] s' ∧
+    (∀ k b, Item.loop k b ∈ s' → POK cfg H env cont f k b) :=
+  rcEdit_valid cfg H env cont f s s' i depth hrc hall hnew hv
+
+/-- **Valid schedules are safe** (the global induction `valid_run`). -/
+theorem C22_valid_safe (cfg : Cfg) (H : Nat) (env : Nat → Nat) (cont : Bool) (f : Nat)
+    (s : Sched) (init : RState) (hH : 1 ≤ H) (henv : ExtOK env)
+    (hall : ∀ k b, Item.loop k b ∈ s → POK cfg H env cont f k b)
+    (hv : ValidFrom cfg H env cont f [] s)
+    (hwf : wfState cfg cont init = true) (hi : init.inflight = none) :
+    SafeF H env cont f (lower cfg s) init :=
+  valid_safe cfg H env cont f s init hH henv hall hv hwf hi
+
+/-- **C22_rc_preserves_safe**: after redundant computation on a validly placed schedule, the
+generated code is still safe for field `f`, every initial state, `H` and extents. -/
+theorem C22_rc_preserves_safe (cfg : Cfg) (H : Nat) (env : Nat → Nat) (cont : Bool) (f : Nat)
+    (s s' : Sched) (i : Nat) (depth : Option Nat) (init : RState) (hH : 1 ≤ H) (henv : ExtOK env)
+    (hrc : rcEdit cfg s i depth = some s')
+    (hall : ∀ k b, Item.loop k b ∈ s → POK cfg H env cont f k b)
+    (hnew : ∀ k b R, s.drop i = .loop k b :: R → POK cfg H env cont f k (rcBound b depth))
+    (hv : ValidFrom cfg H env cont f [] s)
+    (hwf : wfState cfg cont init = true) (hi : init.inflight = none) :
+    SafeF H env cont f (lower cfg s') init := by
+  obtain ⟨hv', hall'⟩ := rcEdit_valid cfg H env cont f s s' i depth hrc hall hnew hv
+  exact valid_safe cfg H env cont f s' init hH henv hall' hv' hwf hi
+
+/-! ### Non-vacuity of `C22_rc_preserves_safe`: `setval_c(f1); kern(f0: gh_inc, f1: gh_read stencil 1)`,
+redundant computation to depth 1 on the `setval_c` loop -/
+
+def exSetval : Kern := ⟨true, [⟨1, .write, false, none⟩]⟩
+def exKern : Kern := ⟨false, [⟨0, .inc, false, none⟩, ⟨1, .read, false, some (.lit 1)⟩]⟩
+
+/-- packaging of the side conditions for the examples below -/
+theorem C22_example_pok (cfg : Cfg) (k : Kern) (b : Bound)
+    (hn : (k.args.map (·.field)).Nodup)
+    (hargs : ∀ a ∈ k.args, ArgOK a ∧ (b.lvl = .haloMax → a.stencil = none) ∧ writeOnlyPattern cfg k b a = false)
+    (hb : b.ok cfg k)
+    (hd : ∀ a ∈ k.args, a.access.writes = true → k.dofKernel = true → cfg.annexed = true → b.lvl ≠ .owned)
+    (hc : ∀ a ∈ k.args, a.access.writes = true → k.dofKernel = false → a.disc = false → a.access ≠ .write → b.lvl.isHalo = true)
+    (hs : SemOK 3 (fun _ => 1) true 1 k b) : POK cfg 3 (fun _ => 1) true 1 k b :=
+  ⟨⟨hn, hargs, hb, hd, hc⟩, hs⟩
+
+example : ∀ s', rcEdit ⟨false⟩ (placeInvoke ⟨false⟩ [exSetval, exKern]) 0 (some 1) = some s' →
+    SafeF 3 (fun _ => 1) true 1 (lower ⟨false⟩ s') ⟨0, ⟨false, 0⟩, none⟩ := by
+  intro s' hrc
+  have hpl := C22_place_valid ⟨false⟩ 3 (fun _ => 1) true 1
+    ([exSetval, exKern].map fun k => (k, defaultBound ⟨false⟩ k)) (by
+      intro k b hmem
+      simp only [List.map_cons, List.map_nil, List.mem_cons, List.not_mem_nil, or_false,
+        Prod.mk.injEq] at hmem
+      rcases hmem with ⟨rfl, rfl⟩ | ⟨rfl, rfl⟩
+      · apply C22_example_pok
+        · decide
+        · intro a ha
+          simp [exSetval] at ha
+          subst ha
+          exact ⟨⟨by simp [Arg.accOK], by simp, by simp [Arg.extOK]⟩, by decide, by decide⟩
+        · exact ⟨by decide, by decide, (by show True; trivial)⟩
+        · intro a _ _ _ h; cases h
+        · intro a _ _ h; cases h
+        · intro a ha
+          simp [argOf, exSetval] at ha
+          subst ha
+          exact ⟨by simp, by decide, by decide, by decide⟩
+      · apply C22_example_pok
+        · decide
+        · intro a ha
+          simp [exKern] at ha
+          rcases ha with rfl | rfl <;>
+            exact ⟨⟨by simp [Arg.accOK], by simp, by simp [Arg.extOK]⟩, by decide, by decide⟩
+        · exact ⟨by decide, by decide, (by show (1 : Nat) ≤ 1; decide)⟩
+        · intro a _ _ h; cases h
+        · intro a _ _ _ _ _; decide
+        · intro a ha
+          simp [argOf, exKern] at ha
+          subst ha
+          exact ⟨by simp, by decide, by decide, by decide⟩)
+  apply C22_rc_preserves_safe ⟨false⟩ 3 (fun _ => 1) true 1 _ s' 0 (some 1) _ (by decide)
+    (fun _ => Nat.le_refl 1) hrc hpl.2 _ hpl.1 (by decide) rfl
+  intro k b R hd
+  have : k = exSetval ∧ b = defaultBound ⟨false⟩ exSetval := by
+    have h0 : (placeInvoke ⟨false⟩ [exSetval, exKern]).head? =
+        some (Item.loop exSetval (defaultBound ⟨false⟩ exSetval)) := by decide
+    simp only [List.drop_zero] at hd
+    rw [hd] at h0
+    simp only [List.head?_cons, Option.some.injEq, Item.loop.injEq] at h0
+    exact h0
+  obtain ⟨rfl, rfl⟩ := this
+  apply C22_example_pok
+  · decide
+  · intro a ha
+    simp [exSetval] at ha
+    subst ha
+    exact ⟨⟨by simp [Arg.accOK], by simp, by simp [Arg.extOK]⟩, by decide, by decide⟩
+  · exact ⟨by decide, by decide, (by show (1 : Nat) ≤ 1; decide)⟩
+  · intro a _ _ _ h; cases h
+  · intro a _ _ h; cases h
+  · intro a ha
+    simp [argOf, exSetval] at ha
+    subst ha
+    exact ⟨by simp, by decide, by decide, by decide⟩
+
+example : (rcEdit ⟨false⟩ (placeInvoke ⟨false⟩ [exSetval, exKern]) 0 (some 1)).isSome = true := by
+  decide
+
+/-- **Colouring preserves valid placement, hence safety.**  `colourEdit` marks a cell-column loop
+as coloured (upper bound `ncells`→`ncolour`, `cell_halo(d)`→`colour_halo(d)`); under `Bound.ok`
+(`ncolour` only for kernels whose updates are all `GH_WRITE`) `_halo_read_access`,
+`HaloReadAccess` and `HaloWriteAccess` are unchanged (`hra_col`, `readInfo_col`,
+`writeInfo_col`), and the dynamic specification does not mention colouring at all. -/
+theorem C22_colour_preserves_safe (cfg : Cfg) (H : Nat) (env : Nat → Nat) (cont : Bool) (f : Nat)
+    (s s' : Sched) (i : Nat) (init : RState) (hH : 1 ≤ H) (henv : ExtOK env)
+    (hc : colourEdit s i = some s')
+    (hall : ∀ k b, Item.loop k b ∈ s → POK cfg H env cont f k b)
+    (hnew : ∀ k b R, s.drop i = .loop k b :: R → POK cfg H env cont f k (colBound b))
+    (hv : ValidFrom cfg H env cont f [] s)
+    (hwf : wfState cfg cont init = true) (hi : init.inflight = none) :
+    ValidFrom cfg H env cont f [] s' ∧
+    (∀ k b, Item.loop k b ∈ s' → POK cfg H env cont f k b) ∧
+    SafeF H env cont f (lower cfg s') init := by
+  obtain ⟨hv', hall'⟩ := colourEdit_valid cfg H env cont f s s' i hc hall hnew hv
+  exact ⟨hv', hall', valid_safe cfg H env cont f s' init hH henv hall' hv' hwf hi⟩
+
+/-- non-vacuity: colouring the `gh_inc` loop of the example invoke is accepted by the model -/
+example : (colourEdit (placeInvoke ⟨false⟩ [exSetval, exKern]) 3).isSome = true := by decide
+
+/-- **Asynchronous halo exchange: start/finish pairing.**  `asyncEdit` replaces the synchronous
+exchange at position `i` by `halo_exchange_start` immediately followed by `halo_exchange_finish`
+(`Dynamo0p3AsyncHaloExchangeTrans.apply`).  The generated code of the new schedule runs EXACTLY
+like that of the old one, for every field, `H`, extents and state (same result state, same
+failure if any): both parts get the depth and `is_dirty` guard of the synchronous exchange, the
+start only records the exchange in flight and the finish completes it.  (Provided no earlier
+`halo_exchange_start` of the same field precedes it, whose end would be looked up through the
+edited position.)  In particular safety is preserved. -/
+theorem C22_async_preserves_run (cfg : Cfg) (H : Nat) (env : Nat → Nat) (cont : Bool) (f : Nat)
+    (s s' : Sched) (i : Nat) (h : asyncEdit s i = some s')
+    (hP : ∀ g R, s.drop i = .hex .sync g :: R → ∀ x ∈ s.take i, x ≠ .hex .start g)
+    (init : RState) :
+    runF H env cont f (lower cfg s') init = runF H env cont f (lower cfg s) init :=
+  asyncEdit_run cfg H env cont f s s' i h hP init
+
+theorem C22_async_preserves_safe (cfg : Cfg) (H : Nat) (env : Nat → Nat) (cont : Bool) (f : Nat)
+    (s s' : Sched) (i : Nat) (h : asyncEdit s i = some s')
+    (hP : ∀ g R, s.drop i = .hex .sync g :: R → ∀ x ∈ s.take i, x ≠ .hex .start g)
+    (init : RState) (hs : SafeF H env cont f (lower cfg s) init) :
+    SafeF H env cont f (lower cfg s') init := by
+  unfold SafeF at hs ⊢
+  rw [asyncEdit_run cfg H env cont f s s' i h hP init]
+  exact hs
+
+/-- non-vacuity: the exchange of field 1 in the example invoke (position 2) can be split, and the
+split schedule runs to the same state as the synchronous one from an all-dirty start -/
+example :
+    (asyncEdit (placeInvoke ⟨false⟩ [exSetval, exKern]) 2).isSome = true ∧
+    runF 3 (fun _ => 1) true 1
+      (lower ⟨false⟩ ((asyncEdit (placeInvoke ⟨false⟩ [exSetval, exKern]) 2).getD []))
+      ⟨0, ⟨false, 0⟩, none⟩ = .ok ⟨2, ⟨true, 2⟩, none⟩ := by
+  constructor
+  · decide
+  · rfl
 
 /-- the full property, for the record: every generated schedule is safe for every field, halo
 depth, extents, continuity and initial state.  It is FALSE of the pinned model (the two
